@@ -10,6 +10,7 @@ pub mod c02;
 pub mod c03;
 pub mod c06;
 pub mod c07;
+pub mod c13;
 pub mod oracle;
 
 pub type Suite = fn(&[i128]) -> Vec<i128>;
@@ -33,6 +34,10 @@ pub fn suites() -> Vec<(&'static str, Suite)> {
         ("dash_new", c07::run_dash_new as Suite),
         ("dash", c07::run_dash as Suite),
         ("dash_geo", c07::run_dash_geo as Suite),
+        ("wide", c13::run_wide as Suite),
+        ("wide_config", c13::run_wide_config as Suite),
+        ("scene", c13::run_scene as Suite),
+        ("wide_sweep", c13::run_wide_sweep as Suite),
     ]
 }
 
